@@ -47,10 +47,10 @@ func c10Shapes(c *core.Ctx) []hshape {
 	if c.Thorough() {
 		return histShapes
 	}
-	return []hshape{histShapes[0], histShapes[2], histShapes[3], histShapes[7]}
+	return []hshape{histShapes[0], histShapes[2], histShapes[3], histShapes[len(histShapes)-1]}
 }
 
-func c10StatesPerShape(c *core.Ctx) int { return c.Q(8, 40) }
+func c10StatesPerShape(c *core.Ctx) int { return c.Q(12, 60) }
 
 // prestate is a reachable state with the crash-free history leading to it.
 type prestate struct {
@@ -79,9 +79,6 @@ func c10Prestates(sb *sandbox, shape hshape, depth int) []prestate {
 			for _, op := range ops {
 				n := cur.st.clone()
 				if op.Kind == "run" {
-					if len(cur.st.Files) == 0 {
-						continue
-					}
 					sb.materialise(shape, cur.st)
 					o := sb.runInproc(shape, op)
 					sb.readBack(shape, &n)
@@ -101,24 +98,49 @@ func c10Prestates(sb *sandbox, shape hshape, depth int) []prestate {
 	return all
 }
 
-// selectPrestates picks n states deterministically, preferring states that hold a
-// cache with recorded digests and distinct disk contents.
-func selectPrestates(all []prestate, n int, r *core.Rng) []prestate {
-	var with, without []prestate
-	seenDisk := map[string]bool{}
-	for _, p := range all {
-		dk := p.st.diskKey()
-		if seenDisk[dk] || len(p.st.Files) == 0 {
-			continue
-		}
-		seenDisk[dk] = true
+// selectPrestates picks n states deterministically. States are grouped by what a kill
+// could make matter: per task, whether the cache holds nothing / the digest of the current
+// inputs / the digest of other inputs, and whether its current input set is empty; one
+// representative (the one with the shortest history) is taken per class, classes in a
+// seeded order, classes with recorded digests first.
+func selectPrestates(shape hshape, all []prestate, n int, r *core.Rng) []prestate {
+	classOf := func(p prestate) (string, bool) {
+		var parts []string
 		recorded := false
-		for _, v := range p.st.Model {
-			if v != "" {
+		for _, t := range shape.Tasks {
+			snap := snapshot(&t, p.st.Files)
+			last := p.st.Model[t.Name]
+			c := "none"
+			switch {
+			case last != "" && last == snap:
+				c = "current"
+				recorded = true
+			case last != "":
+				c = "other"
 				recorded = true
 			}
+			if snap == "" {
+				c += "/no-input"
+			}
+			if missingLiteral(&t, p.st.Files) {
+				c += "/missing-literal"
+			}
+			parts = append(parts, t.Name+"="+c)
 		}
-		if recorded {
+		if p.st.Cache == nil {
+			parts = append(parts, "no-cache")
+		}
+		return strings.Join(parts, " "), recorded
+	}
+	var with, without []prestate
+	seen := map[string]bool{}
+	for _, p := range all { // breadth-first order: the first of a class has the shortest history
+		k, rec := classOf(p)
+		if seen[k] {
+			continue
+		}
+		seen[k] = true
+		if rec {
 			with = append(with, p)
 		} else {
 			without = append(without, p)
@@ -126,16 +148,18 @@ func selectPrestates(all []prestate, n int, r *core.Rng) []prestate {
 	}
 	core.Shuffle(r, with)
 	core.Shuffle(r, without)
-	var out []prestate
-	for len(out) < n && (len(with) > 0 || len(without) > 0) {
-		// three states with recorded digests for every one without
-		if len(with) > 0 && (len(out)%4 != 3 || len(without) == 0) {
-			out = append(out, with[0])
-			with = with[1:]
-		} else {
-			out = append(out, without[0])
-			without = without[1:]
+	out := append(with, without...)
+	if len(out) > n {
+		// keep mostly states with recorded digests, but always a few without
+		k := n - n/4
+		if k > len(with) {
+			k = len(with)
 		}
+		rest := n - k
+		if rest > len(without) {
+			rest = len(without)
+		}
+		out = append(append([]prestate{}, with[:k]...), without[:rest]...)
 	}
 	return out
 }
@@ -149,7 +173,8 @@ func c10Worker(c *core.Ctx) {
 	sb := newSandbox(c.TempDir("c10-"))
 	defer os.RemoveAll(sb.Root)
 	all := c10Prestates(sb, shape, c.Q(3, 4))
-	picks := selectPrestates(all, per, c.Rng(core.StrKey("c10-select"), core.StrKey(shape.Name)))
+	picks := selectPrestates(shape, all, per, c.Rng(core.StrKey("c10-select"), core.StrKey(shape.Name)))
+	res.Count("prestate_classes_"+shape.Name, 0)
 	wl.Block(c.Shard)
 	if c.Shard%per < len(picks) {
 		c10Explore(c, sb, shape, picks[c.Shard%per], res, wl)
